@@ -15,7 +15,8 @@ REPO = os.environ.get("VERIF_REPO", "/repo")
 ALLOWED_AXIOMS = {"propext", "Classical.choice", "Quot.sound"}
 GOENV = dict(os.environ, GOFLAGS="-mod=mod", GOPROXY="off", GOSUMDB="off", GOTOOLCHAIN="local")
 
-PROPS = json.load(open(os.path.join(VERIF, "tools", "props.json")))
+PROPS = {f[:-5]: json.load(open(os.path.join(VERIF, "tools", "props", f)))
+         for f in sorted(os.listdir(os.path.join(VERIF, "tools", "props"))) if f.endswith(".json")}
 
 
 def sh(cmd, cwd=None, env=None, timeout=None, stdin=None):
@@ -48,15 +49,15 @@ def newer(src_dir, target):
     return False
 
 
-def build_go_tools(log):
-    """extractor + harness (+ tagged vegeta binary): always `go build` (incremental) against /repo's tree."""
+def build_go_tools(prop, log):
+    """extractor + this property's harness + tagged vegeta binary: always `go build` (incremental) against /repo's tree."""
     errs = []
     subprocess.run(["cp", os.path.join(REPO, "go.sum"), os.path.join(VERIF, "harness", "go.sum")])
     rc, out, dt = sh(["go", "build", "-o", os.path.join(BUILD, "extract"), "."], cwd=os.path.join(VERIF, "extract"), env=GOENV)
     log.append(("go build extract", rc, dt))
     if rc:
         errs.append("extract: " + out[-2000:])
-    rc, out, dt = sh(["go", "build", "-tags", "verif", "-o", os.path.join(BUILD, "vh"), "./cmd/vh"],
+    rc, out, dt = sh(["go", "build", "-tags", "verif", "-o", os.path.join(BUILD, "vh_" + prop.lower()), "./cmd/" + prop.lower()],
                      cwd=os.path.join(VERIF, "harness"), env=GOENV)
     log.append(("go build harness (tags verif, replace => /repo)", rc, dt))
     if rc:
@@ -98,8 +99,9 @@ def lean_obligations(prop, tier, log):
             p = os.path.join(LEAN, ".lake", "build", "lib", "lean", "Vegeta", "Props", f"{prop}.{ext}")
             if os.path.exists(p):
                 os.remove(p)
-    rc, out, dt = sh(["lake", "build", mod, "driver"], cwd=LEAN)
-    log.append((f"lake build {mod} driver", rc, dt))
+    drv = "drv" + prop[1:]
+    rc, out, dt = sh(["lake", "build", mod, drv], cwd=LEAN)
+    log.append((f"lake build {mod} {drv}", rc, dt))
     if rc:
         errs = [l for l in out.splitlines() if "error" in l][:12]
         failures.append("lake build failed: " + " | ".join(errs))
@@ -129,7 +131,7 @@ def lean_obligations(prop, tier, log):
             failures.append(f"required theorem {full} is missing")
     # hygiene grep
     rc, out, dt = sh(["grep", "-rnE", r"sorry|admit|^axiom |native_decide|bv_decide|implemented_by|unsafe |maxHeartbeats 0",
-                      "--include=*.lean", "Vegeta", "Driver.lean"], cwd=LEAN)
+                      "--include=*.lean", "Vegeta", "Drv"], cwd=LEAN)
     hits = []
     for l in out.splitlines():
         body = l.split(":", 2)[-1]
@@ -185,8 +187,8 @@ def run_harness(prop, tier, seed, extra=None, timeout=None):
     out = os.path.join(BUILD, f"summary_{prop}_{os.getpid()}.json")
     work = os.path.join(BUILD, f"work_{prop}_{os.getpid()}")
     os.makedirs(work, exist_ok=True)
-    cmd = [os.path.join(BUILD, "vh"), prop, "-seed", str(seed), "-tier", tier,
-           "-driver", os.path.join(LEAN, ".lake", "build", "bin", "driver"),
+    cmd = [os.path.join(BUILD, "vh_" + prop.lower()), "-seed", str(seed), "-tier", tier,
+           "-driver", os.path.join(LEAN, ".lake", "build", "bin", "drv" + prop[1:]),
            "-vegeta", os.path.join(BUILD, "vegeta-verif"), "-work", work, "-out", out] + (extra or [])
     env = dict(os.environ, GOMAXPROCS=os.environ.get("GOMAXPROCS", "16"))
     try:
@@ -228,7 +230,7 @@ def main():
     meta = PROPS[prop]
 
     with Lock():
-        go_errs = build_go_tools(log)
+        go_errs = build_go_tools(prop, log)
         fact_err = None if go_errs and any(e.startswith("extract") for e in go_errs) else regenerate_facts(log)
         n_obl, n_dis, failures, thms = lean_obligations(prop, tier, log)
     if fact_err:
